@@ -37,6 +37,7 @@ use tokio::sync::mpsc;
 
 thread_local! {
     static KEY_IDS: RefCell<HashMap<u64, [u8; 32]>> = RefCell::new(HashMap::new());
+    static REC_CACHE: RefCell<HashMap<String, Enr>> = RefCell::new(HashMap::new());
 }
 
 pub fn key_of(seed: u64) -> CombinedKey {
@@ -98,6 +99,17 @@ pub fn ip6_of(seed: u64, alt: bool) -> (Ipv6Addr, u16) {
 /// port, `6` canonical ip6+udp6, `m` IPv4-mapped ip6+udp6, `r` carries the key "rej" (refused by the
 /// rejecting table filter), `x` alternative addresses.
 pub fn build_rec(seed: u64, seq: u64, shape: &str, pad: usize) -> Option<Enr> {
+    // record signatures are randomised: one spec must always denote the same signed object
+    let ck = format!("k{}:{}:{}:{}", seed, seq, shape, pad);
+    if let Some(e) = REC_CACHE.with(|m| m.borrow().get(&ck).cloned()) {
+        return Some(e);
+    }
+    let e = build_rec_uncached(seed, seq, shape, pad)?;
+    REC_CACHE.with(|m| m.borrow_mut().insert(ck, e.clone()));
+    Some(e)
+}
+
+fn build_rec_uncached(seed: u64, seq: u64, shape: &str, pad: usize) -> Option<Enr> {
     let key = key_of(seed);
     let alt = shape.contains('x');
     let mut pad = pad;
@@ -150,14 +162,19 @@ pub fn rec_size(e: &Enr) -> usize {
 pub fn sock_num(a: &SocketAddr) -> String {
     match a {
         SocketAddr::V4(s) => format!("4~{}", (u32::from(*s.ip()) as u128) * 65536 + s.port() as u128),
-        SocketAddr::V6(s) => format!("6~{}", u128::from(*s.ip()) * 65536 + s.port() as u128),
+        SocketAddr::V6(s) => format!("6~{}", sock6_hex(s)),
     }
+}
+
+/// `ip * 65536 + port` of an IPv6 socket as 36 hex digits (it does not fit 128 bits).
+pub fn sock6_hex(s: &std::net::SocketAddrV6) -> String {
+    format!("{}{:04x}", hex::encode(s.ip().octets()), s.port())
 }
 
 pub fn ip_num(a: &IpAddr) -> String {
     match a {
         IpAddr::V4(s) => format!("4~{}", u32::from(*s)),
-        IpAddr::V6(s) => format!("6~{}", u128::from(*s)),
+        IpAddr::V6(s) => format!("6~{}", hex::encode(s.octets())),
     }
 }
 
@@ -202,7 +219,7 @@ pub fn rec_abs(e: &Enr, f: Filter) -> String {
         .unwrap_or_else(|| "-".into());
     let u6 = e
         .udp6_socket()
-        .map(|s| (u128::from(*s.ip()) * 65536 + s.port() as u128).to_string())
+        .map(|s| sock6_hex(&s))
         .unwrap_or_else(|| "-".into());
     let mapped = e.udp6_socket().map(|s| is_mapped(s.ip())).unwrap_or(false);
     let sig = e.signature();
@@ -498,7 +515,17 @@ impl Inst {
 
     pub fn resolve_ref(&self, tok: &str) -> Option<usize> {
         let t = tok.strip_prefix('#')?;
-        let find = |pred: &dyn Fn(&EmittedReq) -> bool| self.reqs.iter().position(|r| pred(r)).map(|i| i + 1);
+        // `#q@<id hex>` / `#e@<id hex>`: restricted to requests sent to that node
+        let (t, only) = match t.split_once('@') {
+            Some((a, b)) => (a, hex::decode(b).ok()),
+            None => (t, None),
+        };
+        let find = |pred: &dyn Fn(&EmittedReq) -> bool| {
+            self.reqs
+                .iter()
+                .position(|r| pred(r) && only.as_ref().map(|o| r.contact.node_id().raw()[..] == o[..]).unwrap_or(true))
+                .map(|i| i + 1)
+        };
         match t {
             "q" => find(&|r| r.outstanding && r.is_query),
             "e" => find(&|r| {
@@ -1056,7 +1083,12 @@ impl ServiceRunner {
             }
             // accepted records = Discovered events (the local id is dropped silently)
             let mut expect: Vec<[u8; 32]> = Vec::new();
+            let npk = r.packets.len();
             for (pi, p) in r.packets.iter().enumerate() {
+                // a final packet with total <= 1 discards what was collected before it
+                if total <= 1 && pi + 1 != npk {
+                    continue;
+                }
                 for (nid, ok) in p {
                     if *ok && *nid != local_id && pi < 15 {
                         expect.push(*nid);
@@ -1642,6 +1674,450 @@ impl Runner for ServiceRunner {
 // ------------------------------------------------------------------------------------------------
 // generator
 
+struct Peer {
+    seed: u64,
+    seq: u64,
+    shape: String,
+    pad: usize,
+}
+
+impl Peer {
+    fn spec(&self) -> String {
+        format!("k{}:{}:{}:{}", self.seed, self.seq, self.shape, self.pad)
+    }
+}
+
+fn flip_target(id: &[u8; 32], d: u64, rng: &mut Rng) -> [u8; 32] {
+    // an id at log2 distance `d` from `id` (d = 0: the id itself)
+    let mut t = *id;
+    if d == 0 {
+        return t;
+    }
+    let bit = (d - 1) as usize; // 0-based from the least significant bit
+    let byte = 31 - bit / 8;
+    t[byte] ^= 1 << (bit % 8);
+    // randomise everything below that bit
+    let noise = rng.bytes(32);
+    for b in 0..bit {
+        let by = 31 - b / 8;
+        if noise[by] & (1 << (b % 8)) != 0 {
+            t[by] ^= 1 << (b % 8);
+        }
+    }
+    t
+}
+
+fn contact_shape(mode: &str, rng: &mut Rng) -> &'static str {
+    match mode {
+        "ip4" => *rng.pick(&["4", "4", "46", "4m"]),
+        "ip6" => *rng.pick(&["6", "6", "46"]),
+        _ => *rng.pick(&["4", "6", "46", "4m"]),
+    }
+}
+
+fn any_shape(rng: &mut Rng) -> &'static str {
+    *rng.pick(&["4", "4", "6", "46", "n", "m", "4m", "i", "4r", "6r", "46r", "4x", "6x", "i6"])
+}
+
+fn rid_tok(rng: &mut Rng) -> String {
+    let n = match rng.below(6) {
+        0 => 0,
+        1 => 1,
+        2 => 8,
+        _ => rng.range(1, 8) as usize,
+    };
+    let mut b = rng.bytes(n);
+    if n == 1 && rng.chance(1, 2) {
+        b[0] &= 0x7f;
+    }
+    hx(&b)
+}
+
+fn peer_addr(seed: u64, mode: &str) -> String {
+    if mode == "ip6" {
+        let (ip, port) = ip6_of(seed, false);
+        format!("{}/{}", hex::encode(ip.octets()), port)
+    } else {
+        let (ip, port) = ip4_of(seed, false);
+        format!("{}/{}", ip, port)
+    }
+}
+
+fn total_tok(rng: &mut Rng) -> String {
+    match rng.below(10) {
+        0 => "0".into(),
+        1 | 2 | 3 => "1".into(),
+        4 | 5 => "2".into(),
+        6 => "3".into(),
+        7 => "16".into(),
+        8 => "18446744073709551615".into(),
+        _ => rng.range(2, 20).to_string(),
+    }
+}
+
+fn gen_c12(rng: &mut Rng, ops: &mut Vec<String>, stats: &mut Stats) {
+    let mode = *rng.pick(&["ip4", "ip4", "ip6", "dual"]);
+    let filter = *rng.pick(&["all", "rej"]);
+    let lshape = match mode {
+        "ip4" => "4",
+        "ip6" => "6",
+        _ => "46",
+    };
+    let lseed = rng.range(1, 40);
+    let maxin = *rng.pick(&[16u64, 16, 16, 2]);
+    let enrupd = rng.chance(1, 3) as u8;
+    ops.push(format!("snew A k{} {} {} 0 {} {} 16 {} {}", lseed, rng.range(1, 5), lshape, mode, filter, maxin, enrupd));
+    let local_id = id_of_seed(lseed);
+    let mut peers: Vec<Peer> = Vec::new();
+    let fill = rng.chance(1, 5);
+    if fill {
+        // more than 16 nodes for one bucket: full bucket, pending slot
+        stats.bump("gen.c12.fill");
+        let d = *rng.pick(&[256u64, 256, 255]);
+        let n = rng.range(17, 21);
+        for i in 0..n {
+            let base = rng.below(1 << 30);
+            if let Some(s) = mine(base, |id| dist(&local_id, id) == d) {
+                let p = Peer { seed: s, seq: rng.range(1, 4), shape: contact_shape(mode, rng).to_string(), pad: 0 };
+                let dir = if rng.chance(1, 3) { "o" } else { "i" };
+                if rng.chance(1, 4) {
+                    ops.push(format!("sadd A {}", p.spec()));
+                } else {
+                    ops.push(format!("sest A {} = {}", p.spec(), dir));
+                }
+                if i == 10 && rng.chance(1, 2) {
+                    ops.push("sfail A #p".into());
+                }
+                peers.push(p);
+            }
+        }
+    }
+    let npeers = rng.range(4, 9);
+    for _ in 0..npeers {
+        peers.push(Peer { seed: rng.range(50, 400), seq: rng.range(1, 6), shape: contact_shape(mode, rng).to_string(), pad: 0 });
+    }
+    let n = if fill { rng.range(10, 30) } else { rng.range(20, 55) };
+    for _ in 0..n {
+        let pi = rng.below(peers.len() as u64) as usize;
+        let c = rng.below(100);
+        if c < 22 {
+            // session with a (new version of a) peer record, any shape
+            let p = &mut peers[pi];
+            if rng.chance(1, 2) {
+                p.seq = match rng.below(4) {
+                    0 => p.seq.saturating_sub(1),
+                    1 => p.seq,
+                    _ => p.seq + rng.range(1, 2),
+                };
+                p.shape = if rng.chance(2, 3) { contact_shape(mode, rng).to_string() } else { any_shape(rng).to_string() };
+            }
+            let addr = if rng.chance(5, 6) { "=".to_string() } else { peer_addr(p.seed + 1, mode) };
+            ops.push(format!("sest A {} {} {}", p.spec(), addr, if rng.chance(1, 2) { "i" } else { "o" }));
+        } else if c < 30 {
+            let p = &peers[pi];
+            let sh = if rng.chance(1, 2) { p.shape.clone() } else { any_shape(rng).to_string() };
+            ops.push(format!("sadd A k{}:{}:{}:0", p.seed, p.seq + rng.below(2), sh));
+        } else if c < 44 {
+            // PING from a peer advertising a (possibly) higher sequence number
+            let p = &peers[pi];
+            let seq = match rng.below(4) {
+                0 => p.seq,
+                1 => p.seq.saturating_sub(1),
+                _ => p.seq + rng.range(1, 3),
+            };
+            ops.push(format!("sreq A k{} {} {} ping {}", p.seed, peer_addr(p.seed, mode), rid_tok(rng), seq));
+        } else if c < 60 {
+            // answer to an ENR request: the peer's own record in a new version
+            let dseq = *rng.pick(&["-1", "0", "1", "1", "2", "3"]);
+            let shape = if rng.chance(1, 2) { contact_shape(mode, rng).to_string() } else { any_shape(rng).to_string() };
+            let shape = if dseq == "0" && rng.chance(1, 2) { "same".to_string() } else { shape };
+            let extra = match rng.below(8) {
+                0 => format!(",@off:{}", rng.below(1000)),
+                1 => ",@me".to_string(),
+                2 => format!(",@own:{}:{}", rng.range(1, 4), contact_shape(mode, rng)),
+                _ => String::new(),
+            };
+            ops.push(format!("sresp A #e ok nodes {} @own:{}:{}{}", if rng.chance(5, 6) { "1".to_string() } else { total_tok(rng) }, dseq, shape, extra));
+        } else if c < 70 {
+            let d = *rng.pick(&["+0", "+0", "+1", "+2", "0"]);
+            ops.push(format!("sresp A #p ok pong {} {}", d, peer_addr(rng.range(1, 5), mode)));
+        } else if c < 77 {
+            ops.push(format!("sfail A {}", rng.pick(&["#p", "#e", "#l", "#q"])));
+        } else if c < 80 {
+            ops.push(format!("sunverifiable A {}", peers[pi].spec()));
+        } else if c < 83 {
+            ops.push(format!("srm A k{}", peers[pi].seed));
+        } else if c < 90 {
+            // lookup: answers carry new versions of known peers and strangers
+            let resp_like = &peers[rng.below(peers.len() as u64) as usize];
+            let tid = flip_target(&id_of_seed(resp_like.seed), *rng.pick(&[256u64, 256, 255, 1, 0, 200]), rng);
+            ops.push(format!("squery A {}", hex::encode(tid)));
+            let k = rng.range(1, 3);
+            for _ in 0..k {
+                let mut items: Vec<String> = Vec::new();
+                for _ in 0..rng.range(1, 4) {
+                    let q = &peers[rng.below(peers.len() as u64) as usize];
+                    let sh = if rng.chance(2, 3) { contact_shape(mode, rng).to_string() } else { any_shape(rng).to_string() };
+                    items.push(format!("k{}:{}:{}:0", q.seed, q.seq + rng.below(3), sh));
+                }
+                if rng.chance(1, 4) {
+                    items.push(format!("k{}:1:{}:0", rng.range(500, 600), any_shape(rng)));
+                }
+                ops.push(format!("sresp A #q ok nodes {} {}", total_tok(rng), items.join(",")));
+            }
+            for _ in 0..rng.range(0, 4) {
+                ops.push("sfail A #q".into());
+            }
+        } else if c < 95 {
+            let p = &peers[pi];
+            match rng.below(3) {
+                0 => ops.push(format!("sapi A ping {}", p.spec())),
+                1 => ops.push(format!("sapi A findnode {} {}", p.spec(), rng.pick(&["0", "256,255", "-"]))),
+                _ => ops.push(format!("sapi A talk {} aa 0102", p.spec())),
+            }
+            if rng.chance(2, 3) {
+                match rng.below(4) {
+                    0 => ops.push("sresp A #c ok pong 3 10.0.0.1/9000".into()),
+                    1 => ops.push(format!("sresp A #c ok nodes 1 @off:{}", rng.below(100))),
+                    2 => ops.push("sresp A #c ok talk 0a0b".into()),
+                    _ => ops.push("sfail A #c".into()),
+                }
+            }
+        } else {
+            ops.push(format!("sreq A k{} {} {} findnode {}", peers[pi].seed, peer_addr(peers[pi].seed, mode), rid_tok(rng), rng.pick(&["0", "256", "256,255,254", "0,256,255"])));
+        }
+    }
+    ops.push("stable A".into());
+}
+
+fn gen_c11(rng: &mut Rng, ops: &mut Vec<String>, stats: &mut Stats) {
+    let a = rng.range(1, 40);
+    let b = rng.range(41, 80);
+    let maxn_a = *rng.pick(&[16u64, 16, 16, 5, 40]);
+    let maxn_b = *rng.pick(&[16u64, 16, 3, 40]);
+    let bseq = rng.range(1, 9);
+    ops.push(format!("snew A k{} 1 4 0 ip4 all {} 16 0", a, maxn_a));
+    ops.push(format!("snew B k{} {} 4 0 ip4 all {} 16 0", b, bseq, maxn_b));
+    let bid = id_of_seed(b);
+    let bhex = hex::encode(bid);
+    // the honest responder's table: records at distances 256..249 from it
+    let nb = rng.range(4, 26);
+    for _ in 0..nb {
+        let d = 256 - [0u64, 0, 0, 1, 1, 2, 2, 3, 4, 5, 6, 7][rng.below(12) as usize];
+        if let Some(s) = mine(rng.below(1 << 30), |id| dist(&bid, id) == d) {
+            let pad = *rng.pick(&[0usize, 0, 100, 200]);
+            let spec = format!("k{}:{}:4:{}", s, rng.range(1, 3), pad);
+            if rng.chance(1, 2) {
+                ops.push(format!("sadd B {}", spec));
+            } else {
+                ops.push(format!("sest B {} = {}", spec, if rng.chance(1, 2) { "i" } else { "o" }));
+            }
+        }
+    }
+    if rng.chance(1, 3) {
+        // the responder also knows the requester
+        ops.push(format!("sest B k{}:1:4:0 = i", a));
+    }
+    // A knows B and a few others
+    ops.push(format!("sest A k{}:{}:4:0 = o", b, bseq));
+    let mut others: Vec<u64> = Vec::new();
+    for _ in 0..rng.range(0, 4) {
+        let s = rng.range(100, 300);
+        others.push(s);
+        ops.push(format!("sest A k{}:1:4:0 = {}", s, if rng.chance(1, 2) { "i" } else { "o" }));
+    }
+    let rounds = rng.range(2, 5);
+    for _ in 0..rounds {
+        match rng.below(10) {
+            0 | 1 => {
+                // ENR update: PING / PONG with a higher sequence number, then `[0]`
+                if rng.chance(1, 2) {
+                    ops.push(format!("sreq A k{} {} {} ping {}", b, peer_addr(b, "ip4"), rid_tok(rng), bseq + rng.range(1, 3)));
+                } else {
+                    ops.push(format!("sapi A ping k{}:{}:4:0", b, bseq));
+                    ops.push(format!("sest A k{}:{}:4:0 = o", b, bseq));
+                    ops.push(format!("sresp A #p@{} ok pong +{} 10.0.0.1/9000", bhex, rng.range(1, 2)));
+                }
+                match rng.below(6) {
+                    0 | 1 | 2 => ops.push(format!("shonest A #e@{} B", bhex)),
+                    3 => ops.push(format!("sresp A #e@{} ok nodes 1 @off:{}", bhex, rng.below(1000))),
+                    4 => ops.push(format!("sresp A #e@{} ok nodes 1 @own:1:4,@own:2:4", bhex)),
+                    _ => ops.push(format!("sresp A #e@{} ok nodes {} @own:1:4,@off:{}", bhex, total_tok(rng), rng.below(1000))),
+                }
+                if rng.chance(1, 3) {
+                    ops.push(format!("sresp A #d ok nodes 1 @own:3:4"));
+                }
+            }
+            _ => {
+                let d = match rng.below(20) {
+                    0 | 1 | 2 => 1,
+                    3 | 4 => 0,
+                    5 => 2,
+                    6 => rng.range(3, 8),
+                    7 | 8 => rng.range(9, 245),
+                    9 => rng.range(246, 249),
+                    _ => rng.range(250, 256),
+                };
+                stats.bump(&format!("gen.c11.class.{}", if d <= 2 { d.to_string() } else if d <= 245 { "3-245".into() } else { "246-256".into() }));
+                let tid = flip_target(&bid, d, rng);
+                ops.push(format!("squery A {}", hex::encode(tid)));
+                // the honest answer first or a malicious one in its place
+                match rng.below(8) {
+                    0 => {
+                        // off-distance record among valid ones
+                        ops.push(format!("sresp A #q@{} ok nodes 1 @in:{},@off:{},@in:{}", bhex, rng.below(1000), rng.below(1000), rng.below(1000)));
+                    }
+                    1 => {
+                        // many packets with an enormous total
+                        let total = *rng.pick(&["18446744073709551615", "17", "16", "15", "30"]);
+                        let n = rng.range(14, 19);
+                        for i in 0..n {
+                            ops.push(format!("sresp A #q@{} ok nodes {} @in:{}", bhex, total, 1000 + i + 100 * rng.below(1000)));
+                        }
+                        ops.push(format!("sresp A #d ok nodes {} @in:{}", total, 5000 + rng.below(1000)));
+                    }
+                    2 => {
+                        // multi-packet answer, then packets after completion
+                        let t = rng.range(2, 4);
+                        for i in 0..t {
+                            let it = match rng.below(5) {
+                                0 => "@me".to_string(),
+                                1 => "@own:0:same".to_string(),
+                                2 => format!("@in:{},@in:{}", rng.below(1000), rng.below(1000)),
+                                3 => "-".to_string(),
+                                _ => format!("@in:{}", rng.below(1000)),
+                            };
+                            ops.push(format!("sresp A #q@{} ok nodes {} {}", bhex, t, it));
+                            let _ = i;
+                        }
+                        ops.push(format!("sresp A #d ok nodes {} @in:{}", t, rng.below(1000)));
+                    }
+                    3 => {
+                        // duplicates / wrong source / wrong type
+                        let it = format!("@in:{}", rng.below(1000));
+                        ops.push(format!("sresp A #q@{} ok nodes 2 {},{}", bhex, it, it));
+                        match rng.below(3) {
+                            0 => ops.push(format!("sresp A #q@{} addr:10.1.1.1/9 nodes 2 {}", bhex, it)),
+                            1 => ops.push(format!("sresp A #q@{} ok pong 1 10.0.0.1/9000", bhex)),
+                            _ => ops.push(format!("sresp A #q@{} ok nodes 2 {}", bhex, it)),
+                        }
+                        ops.push(format!("sresp A #d ok nodes 2 {}", it));
+                    }
+                    4 => {
+                        // partial answer, then failure
+                        ops.push(format!("sresp A #q@{} ok nodes 3 @in:{}", bhex, rng.below(1000)));
+                        ops.push(format!("sfail A #q@{}", bhex));
+                    }
+                    _ => {
+                        ops.push(format!("shonest A #q@{} B", bhex));
+                        if rng.chance(1, 4) {
+                            ops.push("shonest A #d B".into());
+                        }
+                    }
+                }
+                // the other peers of the lookup: malicious answers or failures
+                for _ in 0..rng.range(2, 6) {
+                    match rng.below(6) {
+                        0 => ops.push(format!("sresp A #q ok nodes {} @off:{}", total_tok(rng), rng.below(1000))),
+                        1 => ops.push(format!("sresp A #q ok nodes 1 @in:{},@in:{}", rng.below(1000), rng.below(1000))),
+                        2 => ops.push("sresp A #q ok nodes 1 @me".into()),
+                        3 => ops.push(format!("shonest A #q@{} B", bhex)),
+                        _ => ops.push("sfail A #q".into()),
+                    }
+                }
+                for _ in 0..6 {
+                    ops.push("sfail A #q".into());
+                }
+            }
+        }
+    }
+    ops.push("sbans".into());
+}
+
+fn gen_c14(rng: &mut Rng, ops: &mut Vec<String>, stats: &mut Stats) {
+    let mode = *rng.pick(&["ip4", "ip4", "ip6", "dual"]);
+    let lshape = match mode {
+        "ip4" => "4",
+        "ip6" => "6",
+        _ => "46",
+    };
+    let a = rng.range(1, 40);
+    let maxn = *rng.pick(&[16u64, 16, 16, 1, 3, 40, 125]);
+    let lpad = *rng.pick(&[0usize, 0, 100, 200]);
+    ops.push(format!("snew A k{} {} {} {} {} all {} 16 0", a, rng.range(1, 300), lshape, lpad, mode, maxn));
+    let aid = id_of_seed(a);
+    let n = rng.range(6, 40);
+    let mut members: Vec<u64> = Vec::new();
+    for _ in 0..n {
+        let d = 256 - [0u64, 0, 0, 0, 1, 1, 1, 2, 2, 3, 4, 5][rng.below(12) as usize];
+        if let Some(s) = mine(rng.below(1 << 30), |id| dist(&aid, id) == d) {
+            // record sizes from the minimum up to the 300-byte limit
+            let pad = *rng.pick(&[0usize, 40, 100, 130, 150, 156, 160, 200, 200, 200]);
+            let sh = contact_shape(mode, rng);
+            let spec = format!("k{}:{}:{}:{}", s, rng.range(1, 70000), sh, pad);
+            members.push(s);
+            if rng.chance(1, 2) {
+                ops.push(format!("sadd A {}", spec));
+            } else {
+                ops.push(format!("sest A {} = {}", spec, if rng.chance(2, 3) { "i" } else { "o" }));
+            }
+        }
+    }
+    let nreq = rng.range(6, 16);
+    for _ in 0..nreq {
+        let requester = if !members.is_empty() && rng.chance(1, 3) { members[rng.below(members.len() as u64) as usize] } else { rng.range(500, 600) };
+        let addr = if rng.chance(1, 8) {
+            let mut s = peer_addr(requester, mode);
+            let i = s.rfind('/').unwrap();
+            s.truncate(i);
+            format!("{}/0", s)
+        } else {
+            peer_addr(requester, if rng.chance(1, 4) { "ip6" } else { "ip4" })
+        };
+        if rng.chance(1, 5) {
+            ops.push(format!("sreq A k{} {} {} ping {}", requester, addr, rid_tok(rng), rng.range(0, 5)));
+            continue;
+        }
+        let ds: Vec<u64> = match rng.below(12) {
+            0 => vec![],
+            1 => vec![0],
+            2 => vec![256],
+            3 => vec![256, 255, 254],
+            4 => vec![0, 256, 256, 255, 0],
+            5 => vec![254, 256, 255, 253, 252, 0],
+            6 => vec![257, 1000, 1 << 63, 256],
+            7 => {
+                let mut v: Vec<u64> = (197..=256).collect();
+                if rng.chance(1, 2) {
+                    v.push(0);
+                }
+                v
+            }
+            8 => vec![255, 0],
+            9 => vec![1, 2, 0],
+            _ => {
+                let n = rng.range(1, 6);
+                (0..n).map(|_| if rng.chance(1, 6) { 0 } else { rng.range(248, 256) }).collect()
+            }
+        };
+        ops.push(format!("sreq A k{} {} {} findnode {}", requester, addr, rid_tok(rng), show_dists(&ds, ",")));
+        if rng.chance(1, 6) && !members.is_empty() {
+            let m = members[rng.below(members.len() as u64) as usize];
+            ops.push(format!("srm A k{}", m));
+        }
+    }
+}
+
 pub fn gen_case(rng: &mut Rng, tier: &str, profile: &str, stats: &mut Stats) -> Vec<String> {
-    Vec::new()
+    let mut ops = Vec::new();
+    let p = match profile {
+        "C11" | "C12" | "C14" => profile,
+        _ => *rng.pick(&["C11", "C12", "C14"]),
+    };
+    match p {
+        "C11" => gen_c11(rng, &mut ops, stats),
+        "C12" => gen_c12(rng, &mut ops, stats),
+        _ => gen_c14(rng, &mut ops, stats),
+    }
+    ops
 }
